@@ -364,7 +364,13 @@ class GroupedType(BaseDataType):
         except KeyError:
             raise DiameterAvpError(f"`{avp_key}` key not defined")
 
-        self._avps.remove(item)
+        #: The DiameterAVP object bound to the key is the one to leave the 
+        #: list, not the first one equal to it.
+        for index, _avp in enumerate(self._avps):
+            if _avp is item:
+                del self._avps[index]
+                break
+
         self.__dict__.pop(avp_key, None)
 
         self._data = b""
